@@ -720,6 +720,7 @@ def run(ctx):
     from . import c08 as _c08
     from .common import RemapCtx as _RC
     _c08.d6_eof_is_real(_RC(ctx, {'C08-D6': 'C17-D4'}))
+    _c08.d6_read_awaited(_RC(ctx, {'C08-D6': 'C17-D4'}), which=('wpull.protocol.ftp.client:Session.download', 'wpull.protocol.ftp.client:Session.download_listing'))
     rule_d5(ctx)
 
 
